@@ -74,9 +74,9 @@ func init() {
 			}}
 	}
 	parts := append(c08SeqParts(),
-		mk("order-concurrent", 100, 1500, false, feedOrderScenario),
+		mk("order-concurrent", 400, 8000, false, feedOrderScenario),
 		mk("inversion-probe", 4, 20, false, inversionScenario),
-		mk("order-concurrent-race", 30, 300, true, feedOrderScenario),
+		mk("order-concurrent-race", 80, 1600, true, feedOrderScenario),
 	)
 	sup.Register(&sup.Check{
 		Prop: "C08", Level: "exploration",
